@@ -863,6 +863,18 @@ m("c05-commit-records-before-write", "C05", "x/evm/statedb/statedb.go",
 m("c05-commit-branch-never-written", "C05", "x/evm/statedb/statedb.go",
   "\twriteCache()\n\n\t// Update the pendingStorage", "\t_ = writeCache\n\n\t// Update the pendingStorage",
   "flush-is-all-or-nothing", "the flush's branch is never merged")
+m("c04-erc20-spender-is-from", "C04", "precompiles/erc20/tx.go",
+  "\tspenderAddr := contract.CallerAddress\n", "\tspenderAddr := from\n",
+  "send-only-when-caller-is-the-owner", "every transferFrom takes the grant-less route")
+m("c04-erc20-transfer-from-origin", "C04", "precompiles/erc20/tx.go",
+  "\tfrom := contract.CallerAddress\n\tto, amount, err := ParseTransferArgs(args)", "\tfrom := contract.Address()\n\tto, amount, err := ParseTransferArgs(args)",
+  "Transfer#sender-is-the-caller", "transfer() names another account as the sender")
+m("c04-erc20-approve-granter-spender", "C04", "precompiles/erc20/approve.go",
+  "\tgrantee := spender\n\tgranter := contract.CallerAddress\n", "\tgrantee := contract.CallerAddress\n\tgranter := spender\n",
+  "Approve#granter-is-the-caller", "approve grants in the spender's name", count=3)
+m("c04-erc20-send-for-any-transfer", "C04", "precompiles/erc20/tx.go",
+  "\tif ownerIsSpender {\n\t\tmsgSrv := bankkeeper.NewMsgServerImpl(p.bankKeeper)", "\tif ownerIsSpender || amount.Sign() == 0 {\n\t\tmsgSrv := bankkeeper.NewMsgServerImpl(p.bankKeeper)",
+  "send-only-when-caller-is-the-owner", "a second condition opens the grant-less route")
 for prop in ("C16", "C07"):
     m("c%s-gas-meter-without-precharge" % prop[1:], prop, "precompiles/common/precompile.go",
       "sdk.NewGasMeter(initialGas + contract.Gas)", "sdk.NewGasMeter(contract.Gas)",
